@@ -17,8 +17,9 @@ RULE = ('per (adapter, SCREEN mode, active page): pictures of border / backgroun
 EXPLANATION = ('theorems (PcbV.Props.C32): for every picture, bounds, seed, attributes and fuel the modelled scanline '
                'fill changes only pixels of the 4-connected non-border region of the seed inside the viewport and '
                'sets them to the fill attribute (also for tiled fills: to the tile), nothing happens for a seed '
-               'outside / on a border, and whenever the loop runs to completion in a region without pre-filled '
-               'pixels the whole region is filled; correspondence: model vs Session picture after every PAINT; '
+               'outside / on a border, the main loop terminates within 2*W*H*(W+2)+1 iterations for every picture '
+               '(paint_terminates), and above that fuel a region without pre-filled pixels is filled completely '
+               '(paint_complete, paint_exact); correspondence: model vs Session picture after every PAINT; '
                'oracle: breadth-first fill written from the statement (changed pixels within region and = fill; '
                'complete when the region had no pre-filled pixel)')
 TRUSTED_BASE = ['model PcbV.Model.Paint is a hand transcription of graphics.py _flood_fill/_scanline_until/'
@@ -27,8 +28,8 @@ TRUSTED_BASE = ['model PcbV.Model.Paint is a hand transcription of graphics.py _
                 '(a fraction of the pictures is drawn with PSET instead and must behave the same)',
                 'EventQueues.tick is set to 0 on the session object so that PAINT does not sleep 6 ms per four rows',
                 'the exhaustive small-bitmap part calls Graphics._flood_fill directly (the anchored function)']
-ASSUMPTIONS = ['termination of the main loop within the fuel bound of PaintComplete is not proved; the iteration '
-               'count of the model is compared with that bound on every solid case',
+ASSUMPTIONS = ['the iteration count of the model is compared with the proved fuel bound of paint_terminates on every '
+               'solid case (a consistency check of model and theorem, not an assumption of the proof)',
                'the default foreground attribute after SCREEN n is the highest attribute of the mode']
 
 logging.getLogger().setLevel(logging.ERROR)
